@@ -69,6 +69,7 @@ type Contract struct {
 	Reads     bool     // pure function may read the heap (re-evaluated per state)
 	Unverified bool    // in-repo contract whose body is not (yet) verified: an assumption
 	Implements []string // function-type contracts this function must also satisfy
+	NoCapture  bool     // never writes a captured variable or a package-level variable
 	External  bool
 }
 
@@ -269,6 +270,8 @@ func (w *World) parseContractFile(path string) error {
 			cur.Reads = true
 		case "trusted":
 			cur.Trusted = true
+		case "nocapture":
+			cur.NoCapture = true
 		case "implements":
 			cur.Implements = append(cur.Implements, rest)
 		case "unverified":
